@@ -248,6 +248,17 @@ def isForbiddenDomain (c : Char) : Bool :=
 
 def xnPrefix : Str := "xn--".toList
 
+/-- the host parser after "domain to ASCII" on an ASCII, lower-cased domain -/
+def domainToHost (dom : Str) : HostResult :=
+  if (splitOn '.' dom).any (fun l => xnPrefix.isPrefixOf l) then .unsupported
+  else if dom.isEmpty then .failure
+  else if dom.any isForbiddenDomain then .failure
+  else if endsInNumber dom then
+    match ipv4Parse dom with
+    | some n => .ok (.ipv4 n)
+    | none => .failure
+  else .ok (.domain dom)
+
 def hostParse (buf : Str) : HostResult :=
   match buf with
   | '[' :: r =>
@@ -259,19 +270,8 @@ def hostParse (buf : Str) : HostResult :=
     | _ => .failure
   | _ =>
     if !buf.all isAscii then .unsupported
-    else
-      let bytes := percentDecode buf
-      if bytes.any (fun b => decide (b ≥ 0x80)) then .unsupported
-      else
-        let dom := (bytes.map Char.ofNat).map asciiLower
-        if (splitOn '.' dom).any (fun l => xnPrefix.isPrefixOf l) then .unsupported
-        else if dom.isEmpty then .failure
-        else if dom.any isForbiddenDomain then .failure
-        else if endsInNumber dom then
-          match ipv4Parse dom with
-          | some n => .ok (.ipv4 n)
-          | none => .failure
-        else .ok (.domain dom)
+    else if (percentDecode buf).any (fun b => decide (b ≥ 0x80)) then .unsupported
+    else domainToHost (((percentDecode buf).map Char.ofNat).map asciiLower)
 
 /-! ## path -/
 
